@@ -15,6 +15,7 @@ ROOT = os.path.dirname(HERE)
 sys.path.insert(0, HERE)
 import verus_run  # noqa: E402
 import kani_run  # noqa: E402
+import native_run  # noqa: E402
 
 REPO = os.environ.get("VERIF_REPO", "/repo")
 
@@ -156,6 +157,15 @@ def main(argv):
         for u in kres.get("undecided", []):
             undecided.append("kani:" + u)
         obligations.extend(kres["obligations"])
+
+    # ---- native bounded stand-ins (small-scope enumeration on the real code) ---------------------------
+    if cfg.get("native"):
+        nres = native_run.run(cfg["native"], REPO, os.path.join(work, "native"))
+        cmds.append(nres["cmd"])
+        functions_under_contract.extend(nres["functions"])
+        for u in nres["undecided"]:
+            undecided.append("native:" + u)
+        obligations.extend(nres["obligations"])
 
     # ---- classification -----------------------------------------------------------------
     violations = []
